@@ -437,7 +437,8 @@ def run(ck):
              "{[],[1],[1,2],[2,5]} x {BulkAddRecord, ReplaceTableData, AddRecord for single ids} (quick: 40% / 16% "
              "of the length-3 lists; thorough: all, for three ways of building the state incl. an id column "
              "larger than the largest row); plus evolving histories of random requests (lengths <= 6, holes, ids "
-             "around the maximum, removals between requests) and the 1,000,000 boundary; non-trivial = accepted "
+             "around the maximum, removals between requests), the freed-slot family (largest row added explicitly into a slot "
+             "freed earlier, then 8 kinds of requests, 5 states) and the 1,000,000 boundary; non-trivial = accepted "
              "request mixing automatic and explicit ids, or rejected request of >= 2 ids; distinct by (state, action, ids)")
   ck.assumptions = ["one table with Int / Ref / RefList columns; requests carry one Int column (position marker)",
                     "row ids in requests are ints or None (JSON clients cannot send anything else that passes `< 0`)",
